@@ -1,1 +1,2 @@
 import HvPull.Model.Pull
+import HvPull.Model.Join
